@@ -180,6 +180,31 @@ def case_config(case):
     return {"v": v[:5], "nt": runs if runs else 1, "key": core.canon(case), "n": n, "obs": {"tower_step_runs_compared": runs, "towers": len(cfg.towers), "steps": cfg.met.n_timesteps}}
 
 
+HIST_OPS = [
+    {"devs": []},
+    {"devs": [["solver", "src_loc", [30.0, 20.0]]]},
+    {"devs": [["solver", "src_loc", [55.0, 60.0]]]},
+    {"devs": [["solver", "surface_flux_shape", "circle"]]},
+    {"devs": [["solver", "footprint", True], ["domain", "halo", 13.0]]},
+    {"devs": [["solver", "footprint", True], ["domain", "output_levels", [3, 1]]]},
+    {"devs": [["towers", None, TWO], ["met", "wind_dir", [10.0, 200.0, 300.0]]], "tower": 1, "step": 2},
+    {"devs": [["met", "z0", 0.1], ["solver", "closure", "MOSTM"]]},
+]
+
+
+def hist_op(i):
+    from bldfm.config_parser import parse_config_dict
+    from bldfm.interface import run_bldfm_single
+
+    op = HIST_OPS[i]
+    raw, _ = apply([tuple(x) for x in op["devs"]])
+    cfg = parse_config_dict(raw)
+    with warnings.catch_warnings():
+        warnings.simplefilter("ignore")
+        r = run_bldfm_single(cfg, cfg.towers[op.get("tower", 0)], met_index=op.get("step", 0))
+    return (tuple(np.asarray(g) for g in r["grid"]), np.asarray(r["conc"]), np.asarray(r["flx"]), r["tower_name"], r["tower_xy"], r["timestamp"], r["params"])
+
+
 def run(ctx):
     core.warm_numba()
     dmax = 2 if ctx.tier == "quick" else 3
@@ -195,3 +220,6 @@ def run(ctx):
     ctx.cov["configurations_rejected_at_parse"] = int(sum(1 for r in res if "rejected" in (r.get("obs") or {})))
     if ctx.cov["configurations_rejected_at_parse"] > len(cs) // 10:
         raise core.HarnessError("more than 10%% of the configuration lattice is rejected at parse time (%d of %d): the lattice no longer matches the schema" % (ctx.cov["configurations_rejected_at_parse"], len(cs)))
+    from vf import histories
+
+    histories.run(ctx, __name__, 2 if ctx.tier == "quick" else 3)
